@@ -13,6 +13,7 @@ collate shape and execution order), every spill size, with or without header / f
 import OdcGeo.Props.C06
 import OdcGeo.Props.C18
 import OdcGeo.Lemmas.C18C06
+import OdcGeo.Props.C18Up
 
 set_option linter.unusedVariables false
 set_option linter.unusedSimpArgs false
@@ -104,5 +105,85 @@ theorem mpu_write_to_configured_file_sink (kw : LimitKw) (spill wpc : Nat) (t : 
 
 /-- non-vacuity: with the default limits (parts 1 … 10000) three partitions of two writes each fit -/
 example : (sinkWriter {}).minPart + 1 + 3 * 2 ≤ (sinkWriter {}).maxPart + 1 := by decide
+
+/-! ## `MultiPartUpload.upload` end to end: C06's assembly driving the lazily initialised S3 writer -/
+
+/-- **mpu_upload_to_s3**: `MultiPartUpload.upload(chunks, mk_header, mk_footer, writes_per_chunk, spill_sz ≠ 0)`
+run in-process, for every merge tree over the chunk stream (= every dask fold / collate shape and execution
+order), any header / footer callbacks, with at most 10000 - 1 part numbers needed: the run succeeds; when the
+writer calls it makes (in the order made) and the final `finalise` are performed by the in-process S3 writer
+against a service that demands 5 MiB of every part but the last, ascending part order and known parts, then no
+call fails, exactly ONE multipart upload is initiated, every `upload_part` / `complete` call carries its id,
+part numbers lie in 1 … 10000, and the object the service assembles is header ++ stream ++ footer. -/
+theorem mpu_upload_to_s3 (spill wpc : Nat) (t : C06.Tree Nat)
+    (mkHdr mkFtr : Option (List (Nat × Int) → List Nat))
+    (hs : spill ≠ 0) (hne : t.NonEmpty) (hcap : 1 + 1 + t.leaves * wpc ≤ 10000 + 1) :
+    ∃ wsF fp wsAll,
+      C06.run ⟨uploadWriter spill, spill, wpc, mkFtr.isNone⟩ t mkHdr mkFtr = .ok (.written wsF fp, wsAll, t.obs) ∧
+      (∀ p ∈ wsAll, 1 ≤ p.id ∧ p.id ≤ 10000) ∧
+      (Up.runWrites {} (wsAll.map (fun p => (p.id, p.data)))).2 = none ∧
+      (Up.finalise (5 * 1024 * 1024) (Up.runWrites {} (wsAll.map (fun p => (p.id, p.data)))).1 (fp.map (·.id))).2 = none ∧
+      (Up.finalise (5 * 1024 * 1024) (Up.runWrites {} (wsAll.map (fun p => (p.id, p.data)))).1 (fp.map (·.id))).1.object =
+        some (C06.optBytes (mkHdr.map (fun f => f t.obs)) ++ t.bytes ++
+              C06.optBytes (mkFtr.map (fun f => f t.obs))) ∧
+      (Up.finalise (5 * 1024 * 1024) (Up.runWrites {} (wsAll.map (fun p => (p.id, p.data)))).1 (fp.map (·.id))).1.creates = 1 ∧
+      (∀ c ∈ (Up.finalise (5 * 1024 * 1024) (Up.runWrites {} (wsAll.map (fun p => (p.id, p.data)))).1
+          (fp.map (·.id))).1.calls, c.id = 1) := by
+  have hW : uploadWriter spill = some ⟨5 * 1024 * 1024, 1, 10000⟩ := (upload_writer_spec spill).2 hs
+  obtain ⟨wsF, fp, wsAll, hrun, hbytes, hpw, hrange, hsizes, hperm⟩ :=
+    C06.main ⟨5 * 1024 * 1024, 1, 10000⟩ spill wpc t mkHdr mkFtr hne hcap
+  refine ⟨wsF, fp, wsAll, by rw [hW]; exact hrun, fun p hp => hrange p (hperm.mem_iff.1 hp), ?_⟩
+  have hasc : (fp.map (·.id)).Pairwise (· < ·) := by
+    rw [List.pairwise_map]; exact hpw
+  have hfpnd : (fp.map (·.id)).Nodup := hasc.imp (fun h => Nat.ne_of_lt h)
+  have hwsnd : (wsAll.map (·.id)).Nodup := (hperm.map (·.id)).nodup_iff.2 hfpnd
+  have hkeys : ((wsAll.map (fun p => (p.id, p.data))).map (·.1)) = wsAll.map (·.id) := by
+    simp [List.map_map, Function.comp]
+  have hnd' : ((wsAll.map (fun p => (p.id, p.data))).map (·.1)).Nodup := by rw [hkeys]; exact hwsnd
+  have hfpne : fp ≠ [] := run_final_parts_ne _ t mkHdr mkFtr wsF fp wsAll t.obs hrun
+  let tbl := fp.map (fun p => (p.id, p.data))
+  let f : Nat → Bytes := fun i => match tbl.lookup i with | some d => d | none => []
+  have htblnd : (tbl.map (·.1)).Nodup := by
+    have : tbl.map (·.1) = fp.map (·.id) := by simp [tbl, List.map_map, Function.comp]
+    rw [this]; exact hfpnd
+  have hf : ∀ p ∈ fp, f p.id = p.data := by
+    intro p hp
+    have := Sink.assoc_lookup tbl htblnd (p.id, p.data) (List.mem_map.2 ⟨p, hp, rfl⟩)
+    simp only [f, this]
+  have hw : ∀ i ∈ fp.map (·.id), ((wsAll.map (fun p => (p.id, p.data))).foldl Up.put []).lookup i = some (f i) := by
+    intro i hi
+    obtain ⟨p, hp, rfl⟩ := List.mem_map.1 hi
+    have hpw' : p ∈ wsAll := hperm.mem_iff.2 hp
+    have := Up.lookup_foldl_put (wsAll.map (fun p => (p.id, p.data))) hnd' (p.id, p.data)
+      (List.mem_map.2 ⟨p, hpw', rfl⟩)
+    rw [this, hf p hp]
+  have hmap : (fp.map (·.id)).map f = fp.map (·.data) := by
+    rw [List.map_map]; exact List.map_congr_left (fun p hp => hf p hp)
+  have hsz : ∀ b ∈ ((fp.map (·.id)).map f).dropLast, 5 * 1024 * 1024 ≤ b.length := by
+    rw [hmap]
+    intro b hb
+    obtain ⟨p, hpm, rfl⟩ := Up.mem_dropLast_map (·.data) fp b hb
+    exact hsizes p hpm
+  obtain ⟨h1, h2, h3, h4, h5, _⟩ :=
+    s3_writer_contract (5 * 1024 * 1024) (wsAll.map (fun p => (p.id, p.data))) (fp.map (·.id)) f
+      (by simpa using hfpne) hasc hw hsz
+  refine ⟨h1, h2, ?_, h4, h5⟩
+  rw [h3, ← hbytes, List.flatMap_map]
+  simp only [C06.partsBytes, List.flatMap_def]
+  exact congrArg (fun l => some (List.flatten l)) (List.map_congr_left (fun p hp => hf p hp))
+
+/-- **mpu_upload_without_spill**: `upload(..., spill_sz=0)` hands `mpu_write` no writer: no storage call is made
+at all - no upload is initiated - and the finaliser returns the root chunk holding header ++ stream ++ footer. -/
+theorem mpu_upload_without_spill (wpc : Nat) (t : C06.Tree Nat)
+    (mkHdr mkFtr : Option (List (Nat × Int) → List Nat)) (hne : t.NonEmpty) :
+    ∃ c, C06.run ⟨uploadWriter 0, 0, wpc, mkFtr.isNone⟩ t mkHdr mkFtr = .ok (.chunk c, [], t.obs) ∧
+      c.parts = [] ∧
+      c.data = C06.optBytes (mkHdr.map (fun f => f t.obs)) ++ t.bytes ++
+               C06.optBytes (mkFtr.map (fun f => f t.obs)) := by
+  obtain ⟨c, h1, h2, _, h4⟩ := C06.main_no_writer 0 wpc t mkHdr mkFtr hne
+  exact ⟨c, by rw [(upload_writer_spec 0).1 rfl]; exact h1, h2, h4⟩
+
+/-- non-vacuity: 100 partitions of 4 writes each fit into the S3 part numbers -/
+example : 1 + 1 + 100 * 4 ≤ 10000 + 1 := by decide
 
 end OdcGeo.C18
